@@ -13,6 +13,9 @@ def main():
     if a.pid in CORE:
         import core
         mod = core
+    elif a.pid in ("C09", "C20"):
+        import c09
+        mod = c09
     elif a.pid in ("C14", "C15"):
         import core2
         mod = core2
